@@ -86,3 +86,20 @@ pub fn times_only() {
         println!("destination after merge: lm={:?} expires={} expiry={:?}", e.times.get_last_modification(), e.times.expires, e.times.get_expiry());
     }
 }
+
+/// root group renamed by the source at a later time
+pub fn root_rename() {
+    let mk = |s: i64| chrono::DateTime::from_timestamp(s, 0).unwrap().naive_utc();
+    let mut anc = Database::new(Default::default());
+    anc.root.uuid = uuid::Uuid::from_u128(1);
+    anc.root.name = "Root".into();
+    anc.root.times.set_last_modification(mk(100));
+    let mut dst = anc.clone();
+    let mut src = anc.clone();
+    src.root.name = "Passwords".into();
+    src.root.notes = Some("renamed in the source".into());
+    src.root.times.set_last_modification(mk(200));
+    let r = dst.merge(&src);
+    println!("merge result: {:?}", r.map(|l| format!("{:?}", l)));
+    println!("destination root after merge: name={:?} notes={:?} lm={:?}", dst.root.name, dst.root.notes, dst.root.times.get_last_modification());
+}
